@@ -1,5 +1,7 @@
 import Driver.Common
 import TxdbusModel.Net.Compose
+import TxdbusModel.Net.GetProxy
+import TxdbusModel.Net.Bytes
 /-!
 Line-protocol driver of the C11 network model (`TxdbusModel/Net/Compose.lean`).
 
@@ -26,6 +28,21 @@ Steps:
   resolve <c> <tok> <result>                -> idle | <effects…>          (result = beh without `deferred`)
   expire <c> <serial>                       -> idle | done(<serial>,timeout)      (the deadline of a pending call passes)
   quiescent                                 -> yes | no
+Byte level (Net/Bytes.lean: `bstep`, `flush`, `busHandle`, `cliHandleAll`, `BNet.init`, `drain`, `pick`).  The codec is a
+TABLE filled by the harness with the bytes the real peers wrote: `enc m` = the newest entry under the text `showMsg m`
+(empty when there is none), `dec raw` = the first message serialised so far (`BNet.sent`) whose encoding is `raw`.
+  breset <n> <firstSerial_0> …              -> ok        (from now on `call`, `resolve`, `expire`, `quiescent` act on the
+                                                          byte-level state; `quiescent` answers `yes` only if `pick` agrees)
+  codec <msg text> <hex bytes>              -> ok
+  fire <c> <tok> <result>                   -> ok        (what the Deferred `tok` of client `c` fires with under `drain`)
+  readBus <c> <k>                           -> read <#messages completed> wire=<bytes left on the wire> {fwd <d> <msg>}* {drop <msg>}*
+  readClient <c> <k> <beh> { ; <beh> }*     -> read <#messages completed> wire=<…> <effects of the whole read…>
+  drain <fuel>                              -> drained {B<c>:<k> | C<c>:<k> | R<c>:<tok>}* q=<yes|no>
+  logs <c>                                  -> inv(…)* done(…)*   (everything client `c` has logged so far; either level)
+Stateless:
+  getproxy <nk> {iface}^nk <none | one | many <k>> { inst {iface} | name <name> }^(1|k)
+        the caller's knownInterfaces (as far as the argument names them) and the `interfaces=` argument of
+        getRemoteObject                      -> introspect <required names…> | built <names of the proxy's interfaces…>
 Effects, in this order: inv(<sender>,<serial>,<path>,<iface>,<member>,[args],<impl id>) exec(<tok>) sent(<msg>)
 done(<serial>,<outcome>).  Outcomes print as the harness sees them: `val,<token>` where the token of
 `callback(body)` (a Python list) is the valcodec list token `L_<n>_<elems>` and `callback(None)` is `N`.
@@ -43,6 +60,9 @@ structure St where
   managed : List (Nat × String × Except Exc V)
   unenc : List (String × List V × Exc)
   badnames : List String
+  bnet : Option (BNet V Unit) := none
+  table : List (String × Txdbus.Proto.Bytes) := []
+  fire : List (Nat × Nat × Result V) := []
 
 def St.world (s : St) : World V :=
   { exports := fun j => (s.exports.filter (fun e => e.1 == j)).map (·.2),
@@ -185,11 +205,88 @@ def showIssue : IssueResult → String
 
 def join (xs : List String) : String := " ".intercalate xs
 
+def pIfaceArg : List String → Option (IfaceArg × List String)
+  | "inst" :: ts => do
+    let (i, ts) ← pIface ts
+    pure (.inst i, ts)
+  | "name" :: n :: ts => do pure (.name (← str? n), ts)
+  | _ => none
+
+def pIfacesParam : List String → Option (IfacesParam × List String)
+  | "none" :: ts => some (.none, ts)
+  | "one" :: ts => do
+    let (a, ts) ← pIfaceArg ts
+    pure (.one a, ts)
+  | "many" :: k :: ts => do
+    let (l, ts) ← takeN pIfaceArg (← nat? k) ts
+    pure (.many l, ts)
+  | _ => none
+
+def showPlan : ProxyPlan → String
+  | .introspect req => " ".intercalate ("introspect" :: req.map hs)
+  | .built px => " ".intercalate ("built" :: px.ifaces.map (fun i => hs i.name))
+
+/-! ### byte level -/
+
+def bAuth : Txdbus.Proto.Auth Unit := ⟨fun a _ => (a, .cont)⟩
+
+/-- the table codec (see the header) -/
+def tableCodec (table : List (String × Txdbus.Proto.Bytes)) (sent : List (Msg V)) : WireCodec V :=
+  let enc : Msg V → Txdbus.Proto.Bytes := fun m => ((table.find? (fun e => e.1 == showMsg m)).map (·.2)).getD []
+  { enc := enc, dec := fun raw => sent.find? (fun m => enc m == raw) }
+
+def St.bstep (s : St) (b : BNet V Unit) (st : BStep V) : BNet V Unit :=
+  Txdbus.Net.bstep (tableCodec s.table b.sent) bAuth s.world b st
+
+def St.firePolicy (s : St) : Nat → Exec → Result V := fun c e =>
+  ((s.fire.find? (fun x => x.1 == c && x.2.1 == e.tok)).map (·.2.2)).getD (.raised ⟨none, "", ""⟩)
+
+/-- What happened on client `c` between two byte-level states (`sentNew`: what was serialised in between). -/
+def effectsB (old new : Client V) (sentNew : List (Msg V)) : List String :=
+  (new.invocations.drop old.invocations.length).map showInv
+  ++ (new.exec.filter (fun e => old.nextTok ≤ e.tok)).map (fun e => "exec(" ++ toString e.tok ++ ")")
+  ++ sentNew.map (fun m => "sent(" ++ showMsg m ++ ")")
+  ++ (new.completions.drop old.completions.length).map
+      (fun c => "done(" ++ toString c.1 ++ "," ++ showOutcome c.2 ++ ")")
+
+def splitOnSemi : List String → List (List String)
+  | [] => [[]]
+  | ";" :: ts => [] :: splitOnSemi ts
+  | t :: ts => match splitOnSemi ts with
+    | [] => [[t]]
+    | g :: gs => (t :: g) :: gs
+
+def pBehs (ts : List String) : Option (List (Behaviour V)) :=
+  if ts.isEmpty then some [] else
+  (splitOnSemi ts).mapM (fun g => match pBeh g with | some (b, []) => some b | _ => none)
+
+def showBStep : BStep V → String
+  | .readBus c k => "B" ++ toString c ++ ":" ++ toString k
+  | .readClient c k _ => "C" ++ toString c ++ ":" ++ toString k
+  | .resolve c tok _ => "R" ++ toString c ++ ":" ++ toString tok
+  | .call c _ => "call" ++ toString c
+  | .expire c sr => "X" ++ toString c ++ ":" ++ toString sr
+
+def bQuiescent (b : BNet V Unit) : Bool :=
+  (List.range b.n).all (fun j => (b.upWire j).isEmpty && (b.downWire j).isEmpty && (b.busRx j).buffer.isEmpty &&
+    (b.cliRx j).buffer.isEmpty && (b.cl j).exec.isEmpty)
+
+def showLogs (cl : Client V) : String :=
+  join (cl.invocations.map showInv ++
+    cl.completions.map (fun c => "done(" ++ toString c.1 ++ "," ++ showOutcome c.2 ++ ")"))
+
 /-! ### the step function -/
 
 def bad (s : St) (why : String) : St × String := (s, "error " ++ why)
 
 def doCall (s : St) (c : Nat) (req : CallReq V) : St × String :=
+  match s.bnet with
+  | some b =>
+    if c < b.n then
+      let r := (issue s.world (b.cl c) req).2
+      ({ s with bnet := some (s.bstep b (.call c req)) }, showIssue r)
+    else (s, showIssue .noSuchClient)
+  | none =>
   if c < s.net.n then
     let r := (issue s.world (s.net.cl c) req).2
     ({ s with net := step s.world s.net (.call c req) }, showIssue r)
@@ -202,6 +299,56 @@ def handle (s : St) (line : String) : St × String :=
     | some n, some firsts =>
       ({ St.init with net := Net.init n (fun j => firsts.getD j 1) }, "ok")
     | _, _ => bad s "reset"
+  | "breset" :: n :: ts =>
+    match nat? n, ts.mapM nat? with
+    | some n, some firsts =>
+      ({ St.init with bnet := some (BNet.init n (fun j => firsts.getD j 1) ()) }, "ok")
+    | _, _ => bad s "breset"
+  | ["codec", text, hex] =>
+    match Driver.hexToBytes? hex with
+    | some bs => ({ s with table := (text, bs) :: s.table }, "ok")
+    | none => bad s "codec"
+  | "fire" :: c :: tok :: ts =>
+    match nat? c, nat? tok, pResult ts with
+    | some c, some tok, some (res, []) => ({ s with fire := (c, tok, res) :: s.fire }, "ok")
+    | _, _, _ => bad s "fire"
+  | ["readBus", c, k] =>
+    match nat? c, nat? k, s.bnet with
+    | some c, some k, some b =>
+      let b' := s.bstep b (.readBus c k)
+      let nm := (rawMsgs (Txdbus.Proto.step bAuth (b.busRx c) ((b.upWire c).take k)).2).length
+      let fwd := (b'.sent.drop b.sent.length).map (fun m => "fwd " ++ no m.dest ++ " " ++ showMsg m)
+      let drp := (b'.dropped.drop b.dropped.length).map (fun m => "drop " ++ showMsg m)
+      ({ s with bnet := some b' },
+        join (["read", toString (if c < b.n then nm else 0), "wire=" ++ toString (b'.upWire c).length] ++ fwd ++ drp))
+    | _, _, _ => bad s "readBus"
+  | "readClient" :: c :: k :: ts =>
+    match nat? c, nat? k, pBehs ts, s.bnet with
+    | some c, some k, some behs, some b =>
+      let b' := s.bstep b (.readClient c k behs)
+      let nm := (rawMsgs (Txdbus.Proto.step bAuth (b.cliRx c) ((b.downWire c).take k)).2).length
+      ({ s with bnet := some b' },
+        join (["read", toString (if c < b.n then nm else 0), "wire=" ++ toString (b'.downWire c).length] ++
+          effectsB (b.cl c) (b'.cl c) (b'.sent.drop b.sent.length)))
+    | _, _, _, _ => bad s "readClient"
+  | ["drain", fuel] =>
+    match nat? fuel, s.bnet with
+    | some fuel, some b =>
+      -- the codec's `dec` must know what the schedule itself serialises: one step at a time
+      let rec go (fuel : Nat) (b : BNet V Unit) (acc : List String) : BNet V Unit × List String :=
+        match fuel with
+        | 0 => (b, acc)
+        | fuel + 1 =>
+          match drain (tableCodec s.table b.sent) bAuth s.world s.firePolicy 1 b with
+          | st :: _ => go fuel (s.bstep b st) (acc ++ [showBStep st])
+          | [] => (b, acc)
+      let (b', steps) := go fuel b []
+      ({ s with bnet := some b' }, join (["drained"] ++ steps ++ ["q=" ++ (if bQuiescent b' then "yes" else "no")]))
+    | _, _ => bad s "drain"
+  | ["logs", c] =>
+    match nat? c with
+    | some c => (s, match s.bnet with | some b => showLogs (b.cl c) | none => showLogs (s.net.cl c))
+    | none => bad s "logs"
   | "export" :: j :: p :: ts =>
     match nat? j, str? p, pClasses ts with
     | some j, some p, some (cs, []) => ({ s with exports := s.exports ++ [(j, { path := p, classes := cs })] }, "ok")
@@ -270,6 +417,12 @@ def handle (s : St) (line : String) : St × String :=
   | "resolve" :: c :: tok :: ts =>
     match nat? c, nat? tok, pResult ts with
     | some c, some tok, some (res, []) =>
+      match s.bnet with
+      | some b =>
+        let b' := s.bstep b (.resolve c tok res)
+        let eff := effectsB (b.cl c) (b'.cl c) (b'.sent.drop b.sent.length)
+        ({ s with bnet := some b' }, if eff.isEmpty then "idle" else join eff)
+      | none =>
       let net' := step s.world s.net (.resolve c tok res)
       let eff := effects (s.net.cl c) (net'.cl c)
       ({ s with net := net' }, if eff.isEmpty then "idle" else join eff)
@@ -277,11 +430,30 @@ def handle (s : St) (line : String) : St × String :=
   | ["expire", c, sr] =>
     match nat? c, nat? sr with
     | some c, some sr =>
+      match s.bnet with
+      | some b =>
+        let b' := s.bstep b (.expire c sr)
+        let eff := effectsB (b.cl c) (b'.cl c) []
+        ({ s with bnet := some b' }, if eff.isEmpty then "idle" else join eff)
+      | none =>
       let net' := step s.world s.net (.expire c sr)
       let eff := effects (s.net.cl c) (net'.cl c)
       ({ s with net := net' }, if eff.isEmpty then "idle" else join eff)
     | _, _ => bad s "expire"
+  | "getproxy" :: ts =>
+    match pIfaces ts with
+    | some (kn, ts) =>
+      match pIfacesParam ts with
+      | some (p, []) => (s, showPlan (getRemoteObjectPlan (kn.map (fun i => (i.name, i))) 0 "" p))
+      | _ => bad s "getproxy param"
+    | none => bad s "getproxy known"
   | ["quiescent"] =>
+    match s.bnet with
+    | some b =>
+      let q := bQuiescent b
+      let p := (b.pick s.firePolicy b.n).isNone
+      (s, if q != p then "pick-disagrees" else if q then "yes" else "no")
+    | none =>
     let q := (List.range s.net.n).all (fun j =>
       (s.net.cl j).up.isEmpty && (s.net.cl j).down.isEmpty && (s.net.cl j).exec.isEmpty)
     (s, if q then "yes" else "no")
